@@ -184,11 +184,15 @@ LeadOk(D, k, f, full) ==
 \* lattice of test directions: no direction outside the reported components carries more than sigma_k^2
 Unit(p, j)          == [q \in 1..p |-> IF q = j THEN 1 ELSE 0]
 Pair(p, j, l, s, t) == [q \in 1..p |-> IF q = j THEN s ELSE IF q = l THEN t ELSE 0]
+\* directions with entries in {-1, 0, 1}, one of each +/- pair (constants: evaluated once)
+Lat1 == {<<1>>}
+Lat2 == {<<1, 0>>, <<0, 1>>, <<1, 1>>, <<1, -1>>}
+Lat3 == {<<1, 0, 0>>, <<0, 1, 0>>, <<0, 0, 1>>, <<1, 1, 0>>, <<1, -1, 0>>, <<1, 0, 1>>, <<1, 0, -1>>, <<0, 1, 1>>,
+         <<0, 1, -1>>, <<1, 1, 1>>, <<1, 1, -1>>, <<1, -1, 1>>, <<1, -1, -1>>}
 LatU(p) ==
-  IF p <= 3
-    THEN {u \in [1..p -> -1..1] : \E j \in 1..p : u[j] > 0 /\ \A q \in 1..(j - 1) : u[q] = 0}
-    ELSE {Unit(p, j) : j \in 1..p} \cup
-         {Pair(p, jl[1], jl[2], 1, t) : jl \in {x \in (1..p) \X (1..p) : x[1] < x[2]}, t \in {-1, 1}}
+  IF p = 1 THEN Lat1 ELSE IF p = 2 THEN Lat2 ELSE IF p = 3 THEN Lat3
+  ELSE {Unit(p, j) : j \in 1..p} \cup
+       {Pair(p, jl[1], jl[2], 1, t) : jl \in {x \in (1..p) \X (1..p) : x[1] < x[2]}, t \in {-1, 1}}
 QuadM(D, u) == SumSeq([j \in 1..D.p |-> u[j] * SumSeq([l \in 1..D.p |-> D.M[j][l] * u[l]])])
 
 \* everything is normalised by tr(M) so that all products stay small:
@@ -240,7 +244,7 @@ FitWhy(D, k, wh, f, full, devs) ==
           ELSE IF ~ritz /\ ~EigOk(D, k, g, f, nv, eq, mvs) THEN "eigen-equation"
           ELSE IF k = D.p /\ ~TraceOk(D, g, f) THEN "trace"
           ELSE IF ~ritz /\ (k < D.p \/ wh) /\ ~LeadOk(D, k, f, full) THEN "leading-singular-values"
-          ELSE IF ~ritz /\ k < D.p /\ ~LatOk(D, k, f, nv, eq) THEN "rayleigh-bound"
+          ELSE IF ~ritz /\ k < D.p /\ ~wh /\ ~LatOk(D, k, f, nv, eq) THEN "rayleigh-bound"
           ELSE IF ~(IF DevEvar \in devs THEN EvDevOk(D, k, f) ELSE EvOk(D, k, f)) THEN "explained-variance"
           ELSE IF ~(IF DevEvar \in devs THEN RatioDevOk(D, k, f) ELSE RatioOk(D, k, f)) THEN "ratio"
           ELSE "ok"
@@ -472,7 +476,7 @@ ClauseSensitive ==
         nv == NV(D, st.k, st.wh, f)
         eq == EQ(D, st.k, st.wh, f)
     IN CASE st.tag = "rot"      -> ~EigOk(D, st.k, G(D), f, nv, eq, MVs(D, st.k, G(D), nv))
-         [] st.tag = "trailing" -> ~LeadOk(D, st.k, f, FullS2(st.p, st.amp, st.ord)) /\ ~LatOk(D, st.k, f, nv, eq)
+         [] st.tag = "trailing" -> ~LeadOk(D, st.k, f, FullS2(st.p, st.amp, st.ord)) /\ (st.wh \/ ~LatOk(D, st.k, f, nv, eq))
          [] st.tag = "sig2"     -> st.k = st.p => ~TraceOk(D, G(D), f)
          [] st.tag = "scale105" -> ~OrthOk(D, st.k, nv, eq)
 
